@@ -4,7 +4,7 @@
 EXTENDS CallsValue, Json, FP
 CONSTANT ObsFile
 Obs == ndJsonDeserialize(ObsFile)
-ProgOf(r) == [shape |-> r.shape, rootErr |-> r.rootErr, extErr |-> r.extErr, rootCtx |-> r.rootCtx, extCtx |-> r.extCtx, extId |-> r.extId, wrap |-> r.wrap]
+ProgOf(r) == [shape |-> r.shape, rootErr |-> r.rootErr, extErr |-> r.extErr, rootCtx |-> r.rootCtx, extCtx |-> r.extCtx, extId |-> r.extId, wrap |-> r.wrap, declB |-> r.declB]
 Rng0(q) == {q[i] : i \in DOMAIN q}
 RECURSIVE FromJ(_)
 FromJ(v) ==
@@ -20,7 +20,7 @@ GenFinger(r) ==
   IF r.gen = "panic" THEN {<<"C13", "generator-panic", r.why, r.id>>}
   ELSE IF r.gen = "hang" THEN {<<"C13", "generator-hang", "", r.id>>}
   ELSE (IF r.gen = "ok" /\ ErrNeeded(p) THEN {<<"C07", "error-dropping-program-accepted", "", r.id>>} ELSE {})
-       \cup (IF r.gen = "ok" /\ CtxNeeded(p) /\ ~ErrNeeded(p) THEN {<<"C06", "unavailable-context-accepted", "", r.id>>} ELSE {})
+       \cup (IF r.gen = "ok" /\ (CtxNeeded(p) \/ DeclCtxNeeded(p)) /\ ~ErrNeeded(p) THEN {<<"C06", "unavailable-context-accepted", "", r.id>>} ELSE {})
        \cup (IF r.gen = "fail" /\ GenOK(p) THEN {<<"C03", "rejected-convertible", "calls", r.id>>} ELSE {})
        \cup (IF r.gen = "ok" /\ ~r.compiles
              THEN {<<"C01", "does-not-compile", IF AliasShadowed(p, r.dir) THEN "import-alias-shadowed-by-" \o r.dir ELSE IF Outcome(Gen(p)) = "uncompilable" THEN "stale-call-after-signature-retrofit" ELSE "unexplained", r.id>>} ELSE {})
